@@ -430,3 +430,6 @@ pub mod plumbing {
         pub use crate::tracked_struct::{Configuration, IngredientImpl, JarImpl, Value};
     }
 }
+
+#[cfg(salsa_rs_salsa_verif)]
+pub mod verif_codec;
